@@ -257,7 +257,7 @@ class Case:
 
     def matching_src(self):
         n = len(self.types)
-        if n == 0:
+        if n == 0 and len(self.alts) == 1 and not self.guard:
             return ""
         if len(self.alts) == 1 and not self.guard:
             return ", ".join(p.src for p in self.alts[0])
@@ -289,6 +289,8 @@ class Case:
 
     def expected_pat_debug(self):
         n = len(self.types)
+        if n == 0 and (self.guard or len(self.alts) > 1):
+            return None   # rendering of explicit `()` alternatives / guards is not pinned down
         if n == 0:
             return "()"
         parts = ["(" + ", ".join(p.rendered() for p in a) + ")" for a in self.alts]
@@ -373,7 +375,14 @@ def gen_case(rng: random.Random) -> Case:
     n = rng.choice([0, 1, 1, 2, 2, 2, 3, 3])
     types = [rng.choice(list(TYPES)) for _ in range(n)]
     if n == 0:
-        return Case([], [[]])
+        # parameter-less methods: `matching!()`, or explicit `()` alternatives with a guard that binds nothing
+        r0 = rng.random()
+        if r0 < 0.4:
+            return Case([], [[]])
+        guard = rng.choice([("1 + 1 == 3", lambda b: False), ("2 > 1", lambda b: True),
+                            ("std::hint::black_box(false)", lambda b: False),
+                            ("std::hint::black_box(7) == 7", lambda b: True)])
+        return Case([], [[]] if r0 < 0.8 else [[], []], guard)
     n_alts = 1 if rng.random() < 0.6 else 2
     guard = None
     bind_pos = None
@@ -481,7 +490,8 @@ def render_case(c: Case, idx: int):
         pat = pats[0] if n == 1 else "(" + ", ".join(pats) + ")"
         arms.append(f"            {pat}{g} => true,")
     sc = scrut[0] if n == 1 else "(" + ", ".join(scrut) + ")"
-    ref_match = f"match {sc} {{\n" + "\n".join(arms) + "\n            _ => false,\n        }" if n > 0 else "true"
+    ref_match = f"match {sc} {{\n" + "\n".join(arms) + "\n            _ => false,\n        }" if n > 0 else \
+        (c.guard[0] if c.guard else "true")
     m_src = c.matching_src()
     dbg = ", ".join(f'format!("{{:?}}", v{i})' for i in range(n))
     # where the pattern is declared: on one line, or (every third case) the way rustfmt lays out a long invocation -
